@@ -30,7 +30,7 @@ FN_FEATURES = ['EXTMATCH', 'BRACE', 'SPLIT', 'NEGATE', 'MINUSNEGATE', 'NEGATEALL
                'CASE', 'FORCEUNIX']
 GL_FEATURES = FN_FEATURES + ['GLOBTILDE', 'GLOBSTAR', 'NODOTDIR', 'GLOBSTARLONG']
 DRIVES = ['c:/', 'C:', '//host/share/', '//?/UNC/h/s/', '//?/c:/', '//./Volume{b75e2c83-0000-0000-0000-602f00000000}/',
-          '//?/GLOBAL/c:/', '//?/GLOBAL/UNC/h/s/', '//host/sh*re/', '//ho[s]t/share/']
+          '//?/GLOBAL/c:/', '//?/GLOBAL/UNC/h/s/', '//host/sh*re/', '//ho[s]t/share/', '//srv/sh?re/', '//a/[bc]/', '//?/c:*', '//srv/sh*']
 
 
 def subsets(features, idx, rng):
@@ -132,8 +132,9 @@ def classify(s, t, fnames, exp=None, got=None):
 
 def check_string(ctx, s, idx, rng, drive=False):
     nbrs = neighbours(s, rng)
-    modes = [('glob.escape(unix=False)', G, True)] if drive else [
-        ('fnmatch.escape', F, False), ('glob.escape(unix=True)', G, False), ('glob.escape(unix=False)', G, True)]
+    modes = [('glob.escape(unix=False)', G, True), ('fnmatch.escape(FORCEWIN)', F, True)] if drive else [
+        ('fnmatch.escape', F, False), ('glob.escape(unix=True)', G, False), ('glob.escape(unix=False)', G, True),
+        ('fnmatch.escape(FORCEWIN)', F, True)]
     for api, mod, win in modes:
         pathmode = mod is G
         feats = GL_FEATURES if pathmode else FN_FEATURES
